@@ -111,6 +111,25 @@ def chi2_test(counts, probs, N):
     return (chi2_sf(chi, df) if df > 0 else 1.0), chi, df, impossible
 
 
+class ImplError(Exception):
+    """an exception raised by the implementation where the statement promises a result"""
+
+    def __init__(self, what, detail):
+        super().__init__(what)
+        self.what, self.detail = what, detail
+
+
+@contextlib.contextmanager
+def impl(what):
+    try:
+        yield
+    except ImplError:
+        raise
+    except Exception as e:  # noqa
+        import traceback
+        raise ImplError(f"{what}: {type(e).__name__}", traceback.format_exc()[-700:])
+
+
 # ------------------------------------------------------------------ stubs
 class ScriptRng:
     """stands for numpy's Generator inside PythonSampler: uniform(0, n) / uniform() return the script"""
@@ -580,18 +599,20 @@ def check_alias(case, M):
     robust = exact or margin > Fr(1, 10 ** 6)
     failures = []
     # ---- implementation
-    obj, s, arr = make_python_sampler(wf, case["via"])
-    alias = [int(a) for a in s.alias]
-    proba = [Fr(float(p)) for p in s.proba]
-    s.rng = ScriptRng(draws)
-    outs = []
-    for _ in draws:
-        outs.append(int(s.sample_1()))
+    with impl("building the fallback sampler / sample_1"):
+        obj, s, arr = make_python_sampler(wf, case["via"])
+        alias = [int(a) for a in s.alias]
+        proba = [Fr(float(p)) for p in s.proba]
+        s.rng = ScriptRng(draws)
+        outs = []
+        for _ in draws:
+            outs.append(int(s.sample_1()))
     calls_ok = all((len(c) == 2 and c[0] == 0 and c[1] == n) if j % 2 == 0 else len(c) == 0 for j, c in enumerate(s.rng.calls))
     # a second sampler built from the same array object must see the same weights
     second = None
     if arr is not None:
-        _, s2, _ = make_python_sampler(arr, case["via"])
+        with impl("building a second fallback sampler"):
+            _, s2, _ = make_python_sampler(arr, case["via"])
         second = table_dist([int(a) for a in s2.alias], [Fr(float(p)) for p in s2.proba], n)
     # ---- model and spec
     ans = M.ask([Sym("c09.alias"), [fs(w) for w in ws], [[fs(a), fs(b)] for a, b in draws]])
@@ -683,8 +704,9 @@ def check_stat(case, M):
     cls = backend_class(case["backend"])
     N = case["N"]
     failures = []
-    s = make_sampler(cls, wf, case["via"], case["seed"])
-    xs = draw_many(s, case["via"], N)
+    with impl(f"building a sampler and drawing from it ({case['backend']} back-end, via {case['via']})"):
+        s = make_sampler(cls, wf, case["via"], case["seed"])
+        xs = draw_many(s, case["via"], N)
     counts = collections.Counter(xs)
     pv, chi, df, impossible = chi2_test(counts, want, N)
     who = f"{case['backend']} back-end ({cls.__module__}.{cls.__name__}) via {case['via']}"
@@ -695,9 +717,10 @@ def check_stat(case, M):
     elif pv < PVAL:
         failures.append({"kind": "oracle", "what": "sample frequencies do not follow the weight vector (chi-square)",
                          "detail": f"{who} weights={wf} seed={case['seed']} N={N} frequencies={[counts.get(k, 0) / N for k in range(n)]} expected={[float(want[k]) for k in range(n)]} chi2={chi:.1f} df={df} p={pv:.2e}"})
-    s1 = make_sampler(cls, wf, case["via"], case["seed"])
-    s2 = make_sampler(cls, wf, case["via"], case["seed"])
-    a, b = draw_many(s1, case["via"], 300), draw_many(s2, case["via"], 300)
+    with impl("building two samplers with the same seed"):
+        s1 = make_sampler(cls, wf, case["via"], case["seed"])
+        s2 = make_sampler(cls, wf, case["via"], case["seed"])
+        a, b = draw_many(s1, case["via"], 300), draw_many(s2, case["via"], 300)
     if a != b or a != xs[:300]:
         failures.append({"kind": "oracle", "what": "two samplers with the same seed produce different sequences",
                          "detail": f"{who} weights={wf} seed={case['seed']} first={a[:12]} second={b[:12]}"})
@@ -733,7 +756,7 @@ def check_value(case, M):
         arg = {"none": None, "empty": [], "list": [float(w) for w in ws], "ndarray": np.array([float(w) for w in ws])}[how]
         RecordingSampler.log = []
         RecordingSampler.script = list(case["idx"])
-        with backend(RecordingSampler):
+        with impl("LexiconSampler(...).sample()"), backend(RecordingSampler):
             ls = S.LexiconSampler(lex, arg, seed=case["seed"])
             got = [ls.sample() for _ in case["idx"]]
         passed_w, passed_seed = RecordingSampler.log[0]
@@ -777,7 +800,7 @@ def check_value(case, M):
         ws = [pf(x) for x in case["w"]]
         probs = [(l, float(w)) for l, w in zip(case["lens"], ws)] if case["pairs"] else [float(w) for w in ws]
         RecordingSampler.log = []
-        with backend(RecordingSampler):
+        with impl("ListSampler(...)"), backend(RecordingSampler):
             RecordingSampler.script = []
             el = S.LexiconSampler(["?"], seed=3)
             el.sampler = None
@@ -787,11 +810,12 @@ def check_value(case, M):
             lsamp = S.ListSampler(el, probs, max_depth=case["max_depth"], seed=5)
         passed_w, _ = RecordingSampler.log[-1]
         ty = vty_repo(case["ty"])
-        try:
-            got = lsamp.sample(type=ty)
-            used = (len(case["len_idx"]) - len(lsamp.sampler.idx), len(case["elems"]) - len(elems))
-        except AssertionError:
-            got, used = "AssertionError", None
+        with impl("ListSampler.sample(type=...)"):
+            try:
+                got = lsamp.sample(type=ty)
+                used = (len(case["len_idx"]) - len(lsamp.sampler.idx), len(case["elems"]) - len(elems))
+            except AssertionError:
+                got, used = "AssertionError", None
         ans = M.ask([Sym("c09.list"), case["max_depth"], list(case["lens"]), vty_wire(case["ty"]), list(case["len_idx"]), list(case["elems"])])
         if ans == "none":
             m_got, m_used = "AssertionError", None
@@ -843,12 +867,13 @@ def check_value(case, M):
     fb = Const(len(tys)) if case["fallback"] else None
     us = S.UnionSampler(table, fb)
     ask = vty_repo(case["ask"])
-    try:
-        got, got_ty = us.sample(type=ask)
-        if got_ty != ask:
-            failures.append({"kind": "oracle", "what": "UnionSampler does not forward the requested type", "detail": f"{ask} -> {got_ty}"})
-    except AssertionError:
-        got = "AssertionError"
+    with impl("UnionSampler.sample(type=...)"):
+        try:
+            got, got_ty = us.sample(type=ask)
+            if got_ty != ask:
+                failures.append({"kind": "oracle", "what": "UnionSampler does not forward the requested type", "detail": f"{ask} -> {got_ty}"})
+        except AssertionError:
+            got = "AssertionError"
     ans = M.ask([Sym("c09.union"), [[vty_wire(t), j] for j, t in enumerate(tys)], len(tys) if case["fallback"] else Sym("none"), vty_wire(case["ask"])])
     m_got = "AssertionError" if ans == "none" else int(ans)
     o_got = tys.index(case["ask"]) if case["ask"] in tys else (len(tys) if case["fallback"] else "AssertionError")
@@ -905,7 +930,7 @@ def check_gdet(case, M):
         lang = None
     # ---- (0) what init_sampling hands to the alias samplers: rule weights and distinct seeds
     RecordingSampler.log, RecordingSampler.script = [], []
-    with backend(RecordingSampler):
+    with impl("init_sampling(seed) (ProbDetGrammar)"), backend(RecordingSampler):
         pg.init_sampling(case["seed"])
     log = RecordingSampler.log
     want_w = [[float(pg.tags[S][P]) for P in pg.tags[S]] for S in nts]
@@ -927,8 +952,11 @@ def check_gdet(case, M):
     impl_seq = []
     for _ in range(case["ncalls"]):
         try:
-            p = pg.sample_program()
-        except IndexError:
+            with impl("sample_program() on scripted draws (ProbDetGrammar)"):
+                p = pg.sample_program()
+        except ImplError as e:
+            if not e.what.endswith("IndexError"):
+                raise
             impl_seq.append(None)
             break
         impl_seq.append(p)
@@ -966,7 +994,7 @@ def check_gdet(case, M):
         N = 20000 if nprog < 300 else 50000
         cls = backend_class(case["backend"])
         pg2 = copy.deepcopy(pg)
-        with backend(cls):
+        with impl("init_sampling(seed); sample_program() (ProbDetGrammar)"), backend(cls):
             pg.init_sampling(case["seed"])
             seq = [pg.sample_program() for _ in range(N)]
             pg2.init_sampling(case["seed"])
@@ -1055,7 +1083,7 @@ def check_gu(case, M):
         rules.append(row)
     # what init_sampling hands to the alias samplers: weights and pairwise distinct seeds
     RecordingSampler.log, RecordingSampler.script = [], []
-    with backend(RecordingSampler):
+    with impl("init_sampling(seed) (ProbUGrammar)"), backend(RecordingSampler):
         pu.init_sampling(case["seed"])
     log = RecordingSampler.log
     want_w, kinds = [], []
@@ -1110,8 +1138,11 @@ def check_gu(case, M):
     impl_seq = []
     for _ in range(case["ncalls"]):
         try:
-            impl_seq.append(pu.sample_program())
-        except IndexError:
+            with impl("sample_program() on scripted draws (ProbUGrammar)"):
+                impl_seq.append(pu.sample_program())
+        except ImplError as e:
+            if not e.what.endswith("IndexError"):
+                raise
             impl_seq.append(None)
             break
     fuel = case["depth"] + 3
@@ -1141,7 +1172,7 @@ def check_gu(case, M):
         N = 20000 if nprog < 300 else 50000
         cls = backend_class(case["backend"])
         pu2 = copy.deepcopy(pu)
-        with backend(cls):
+        with impl("init_sampling(seed); sample_program() (ProbUGrammar)"), backend(cls):
             pu.init_sampling(case["seed"])
             seq = [pu.sample_program() for _ in range(N)]
             pu2.init_sampling(case["seed"])
@@ -1179,17 +1210,12 @@ def check(case, M):
     import warnings
     warnings.simplefilter("ignore")
     k = case["kind"]
-    if k == "alias":
-        return check_alias(case, M)
-    if k == "stat":
-        return check_stat(case, M)
-    if k == "value":
-        return check_value(case, M)
-    if k == "gdet":
-        return check_gdet(case, M)
-    if k == "gu":
-        return check_gu(case, M)
-    raise ValueError(k)
+    fn = {"alias": check_alias, "stat": check_stat, "value": check_value, "gdet": check_gdet, "gu": check_gu}[k]
+    try:
+        return fn(case, M)
+    except ImplError as e:
+        return result(case, json.dumps(case, sort_keys=True), False, [f"{k}.impl-raised"],
+                      [{"kind": "oracle", "what": "the implementation raised an exception: " + e.what, "detail": e.detail}], {"case": case})
 
 
 def corpus():
